@@ -50,15 +50,35 @@ def run(R):
                        "records are serialised by serde_json (preserve_order)")
     R.rule("C17.route", "FileExecutor::execute prints each Some(result_row) at most once per line and the final aggregate table once")
     f = R.need_fn(PRINT)
-    lps = [l for l in [PR.loop_of(f, c.bb) for c in PR.calls_matching(f, r"slice::iter::Iter<'a, T> as core::iter::traits::iterator::Iterator>::next$")] if l]
-    nx = PR.calls_matching(f, r"slice::iter::Iter<'a, T> as core::iter::traits::iterator::Iterator>::next$")
+    pl = [c.bb for c in f.calls if re.search(PRINTLN, short(c.name)) or re.search(PRINTLN, short(c.decl))]
+    # the row loop: the iterator loop of print() itself whose body prints (however the iteration is spelled: iter(), enumerate(), ...)
+    nx = []
+    for c in f.calls:
+        if not short(c.name).endswith("as core::iter::traits::iterator::Iterator>::next"):
+            continue
+        lp = PR.loop_of(f, c.bb)
+        if lp and any(b in lp[1] for b in pl) and PR.discr_guard(f, c, "Some"):
+            nx.append(c)
     if len(nx) != 1:
-        R.violation("C17.once", "print|shape", "OutputPrinter::print: expected one loop over result_row.data (found %d)" % len(nx), [f.loc()])
+        R.violation("C17.once", "print|shape", "OutputPrinter::print: expected one printing loop over the result rows (found %d)" % len(nx), [f.loc()])
         return
     g = PR.discr_guard(f, nx[0], "Some")
     header, body = PR.loop_of(f, nx[0].bb)
-    pl = [c.bb for c in f.calls if re.search(PRINTLN, short(c.name)) or re.search(PRINTLN, short(c.decl))]
     inloop = set(b for b in pl if b in body)
+    # writes of first_line: assignments, or mem::replace/take through a &mut borrow of the field
+    wr = [(i, s, s["rv"]["op"].get("v") if s["rv"]["k"] == "use" and s["rv"]["op"]["k"] == "const" else None)
+          for i, s in f.stmts() if s["k"] == "assign" and "first_line" in place_fields(s["pl"]) and s["pl"]["l"] == 1]
+    for c in f.calls:
+        if re.search(r"^core::mem::(replace|take|swap)$", short(c.name)) and c.args:
+            if "first_line" in F.source_fields(f, c.args[0]):
+                v = c.args[1].get("v") if short(c.name).endswith("replace") and len(c.args) > 1 and c.args[1]["k"] == "const" else \
+                    ("false" if short(c.name).endswith("take") else None)
+                wr.append((c.bb, {"line": c.term["span"]["line"]}, v))
+    outside = [(i, s) for i, s, v in wr if not (i in body and f.dominates(g[1], i))]
+    if outside:
+        R.violation("C17.header", "print|first_line-cleared-outside-rows",
+                    "first_line is cleared outside the per-row path of print (line %d): a result with no rows consumes the CSV header, so a later "
+                    "first record is printed without it" % outside[0][1]["line"], ["%s:%d" % (f.file, outside[0][1]["line"])])
     # first_line true edge
     fl_sw = []
     for (bb, s) in PR.field_reads(f, "first_line"):
@@ -151,9 +171,8 @@ def run(R):
     elif not sep_ok:
         R.violation("C17.once", "print|after-loop", "after the rows %s extra lines are printed" % (r2,), [f.loc()])
     # header typestate
-    wr = [(i, s) for i, s in f.stmts() if s["k"] == "assign" and "first_line" in place_fields(s["pl"]) and s["pl"]["l"] == 1]
-    vals = set(s["rv"]["op"].get("v") for i, s in wr if s["rv"]["k"] == "use" and s["rv"]["op"]["k"] == "const")
-    good, bad = PR.all_paths_hit(f, g[1], [i for i, s in wr], stop_blocks={header})
+    vals = set(v for i, s_, v in wr)
+    good, bad = PR.all_paths_hit(f, g[1], [i for i, s_, v in wr], stop_blocks={header})
     ctor_true = False
     for fn2 in P.fns.values():
         if fn2.target != "lib" or fn2.key == f.key:
